@@ -47,9 +47,6 @@ Lemma K_poly_bases x :
   poly1_a_base x = x /\ poly1_b_base x = x /\ poly2_a_base x = x /\ poly2_b_base x = x /\ poly2_c_base x = x.
 Proof. repeat split; reflexivity. Qed.
 
-Lemma K_est_use_poly n : est_use_poly n = true <-> 2 < n.
-Proof. unfold est_use_poly. rewrite Z.gtb_lt. tauto. Qed.
-Lemma K_est_deg : est_deg_lo = 1 /\ est_deg_hi = 2. Proof. split; reflexivity. Qed.
 
 (* ------------------------------------------------------------------ pmm lookup *)
 Lemma find_idx_bounds nm names : forall i j,
